@@ -188,6 +188,14 @@ def t_run_func(E):
                 raise PyExc(VExc(c, (), info={'origin': 'wrapped-function'}))
             E.throw('CancelledError', origin='own-cancel')
         aio.AWAIT['user_func'] = aw_user
+        prev_sleep = aio.AWAIT.get('sleep')
+
+        def aw_sleep(E_, v, node):
+            E.oblige(Qn + '/ensures.waits_for_nothing_but_the_wrapped_function', z3.BoolVal(False), props={'C08'},
+                     detail='a sleep (back-off) inside _run_func: meanwhile the queue is not read and no quiet-period '
+                            'timer is armed, the retry and later bursts are delivered late')
+            return prev_sleep(E_, v, node) if prev_sleep else NONE
+        aio.AWAIT['sleep'] = aw_sleep
         E.cover(Qn + '/requires')
         E.canary(Qn + '/canary@entry')
         try:
